@@ -78,6 +78,8 @@ def rules_for(pid):
             ("H-register-first", lambda c: RH.h_register_first(c.P, c.E, c.H), 9),
             ("H-complete", lambda c: RH.h_complete(c.P, c.E, c.H, scope_c03), 6),
             ("K-fresh-state", lambda c: RK.k_fresh_state(c.P, c.E, _is_combinator_root), 4),
+            ("D-amb-mirror", lambda c: RH.amb_mirror(c.P, c.E, c.H), 1),
+            ("D-combine-latest", lambda c: RH.combine_latest_not_zip(c.P, c.E, c.H), 1),
             ("J6-ready-set-go", lambda c: _only(RJ.j_rules(c.P, c.E), ("J6",)), 3),
             ("S-fresh-serial", lambda c: RO.s_fresh_serial(c.P, c.E), 2),
             ("S-remove-and-test", lambda c: RO.s_remove_and_test(c.P, c.E), 1),
@@ -111,6 +113,7 @@ def rules_for(pid):
             ("S-fresh-serial", lambda c: RO.s_fresh_serial(c.P, c.E), 2),
             ("SUB-live-gate", lambda c: RO.sub_live_gate(c.P, c.E), 1),
             ("H-register-first", lambda c: RH.h_register_first(c.P, c.E, c.H), 9),
+            ("LATE-HANDLE", lambda c: RJ.late_handle(c.P, c.E), 2),
         ],
         "C07": [
             ("L1", lambda c: RL.l1_reentrancy(c.P, c.E, c.H), 19),
@@ -125,7 +128,6 @@ def rules_for(pid):
         "C17": [
             ("K-self-cycle", lambda c: RC17.k_self_cycle(c.P, c.E), 5),
             ("K1", lambda c: RC17.k1_cut_after_terminal(c.P, c.E), 1),
-            ("O-typestate", lambda c: RO.o_typestate(c.P, c.E, ("callback kept after terminal",)), 4),
             ("K5", lambda c: RC17.k5_relay_cut(c.P, c.E), 3),
             ("K6", lambda c: RC17.k6_connect_cycle(c.P, c.E), 2),
             ("S-finalize-after-terminal", lambda c: RO.s_finalize_after_terminal(c.P, c.E), 3),
@@ -150,6 +152,7 @@ def rules_for(pid):
             ("J", lambda c: RJ.j_rules(c.P, c.E), 8),
             ("D-compose", lambda c: RO.d_compose(c.P, c.E), 3),
             ("L2", lambda c: RL.l2_leaf_locks(c.P, c.E), 7),
+            ("LATE-HANDLE", lambda c: RJ.late_handle(c.P, c.E), 2),
         ],
         "C11": [
             ("D", lambda c: RJ.d_rules(c.P, c.E, c.H), 3),
